@@ -279,6 +279,54 @@ pub struct OneRun {
     pub harness_error: Option<String>,
 }
 
+impl OneRun {
+    /// digest of everything the run did: event log, outcome, every scheduling decision
+    pub fn full_digest(&self) -> u64 {
+        let mut d = self.digest;
+        for t in &self.traces {
+            for &x in t {
+                d = rt::mix(d, x as u64);
+            }
+        }
+        d
+    }
+}
+
+/// Re-executes runs [0, k) in a fresh child process with a different number of driver threads
+/// and compares the full digests with the ones observed in this process.
+pub fn determinism_sample(check: &dyn Check, o: &BatchOpts, runs: &[OneRun], k: u64) -> Result<(u64, u64), String> {
+    let k = k.min(runs.len() as u64);
+    if k == 0 {
+        return Ok((0, 0));
+    }
+    let exe = std::env::current_exe().map_err(|e| e.to_string())?;
+    let out = std::process::Command::new(exe)
+        .args(["digests", check.id(), "--seed", &o.seed.to_string(), "--tier", &o.tier, "--from", "0", "--to", &k.to_string(), "--threads", "3"])
+        .output().map_err(|e| e.to_string())?;
+    if !out.status.success() {
+        return Err(format!("child process failed: {}", String::from_utf8_lossy(&out.stderr).chars().take(300).collect::<String>()));
+    }
+    let mut theirs: BTreeMap<u64, u64> = BTreeMap::new();
+    for l in String::from_utf8_lossy(&out.stdout).lines() {
+        let mut it = l.split_whitespace();
+        if let (Some(i), Some(d)) = (it.next(), it.next()) {
+            if let (Ok(i), Ok(d)) = (i.parse::<u64>(), u64::from_str_radix(d, 16)) {
+                theirs.insert(i, d);
+            }
+        }
+    }
+    let mut mismatches = 0;
+    let mut compared = 0;
+    for r in runs.iter().filter(|r| r.idx < k) {
+        match theirs.get(&r.idx) {
+            Some(d) if *d == r.full_digest() => compared += 1,
+            Some(_) => { compared += 1; mismatches += 1; eprintln!("DETERMINISM: run {} differs between processes", r.idx); }
+            None => {}
+        }
+    }
+    Ok((compared, mismatches))
+}
+
 pub fn plan_run(check: &dyn Check, seed: u64, idx: u64, tier: &str) -> (Value, SimCfg) {
     let mut rng = Rng::new(rt::mix(seed, idx));
     let case = check.gen_case(&mut rng, idx, tier);
@@ -717,6 +765,24 @@ fn finish_batch(check: &dyn Check, o: &BatchOpts, runs: Vec<OneRun>, t0: Instant
     fault_counts.insert("sched:preemption_choice_points".into(), choice_points);
     fault_counts.insert("hash:seed_draws".into(), hash_draws);
 
+    // determinism: the same runs in another process, with another driver-thread count
+    let det_k = if o.tier == "quick" { 64 } else { 1024 };
+    let det = if exit == 0 && std::env::var_os("VERIF_NO_DETERMINISM").is_none() {
+        match determinism_sample(check, o, &runs, det_k) {
+            Ok((n, 0)) => json!({ "runs_compared": n, "processes": 2, "driver_threads": [o.threads, 3], "mismatches": 0 }),
+            Ok((n, m)) => {
+                eprintln!("HARNESS-ERROR property={} non-determinism: {} of {} re-executed runs differ", check.id(), m, n);
+                exit = 2;
+                json!({ "runs_compared": n, "mismatches": m })
+            }
+            Err(e) => {
+                eprintln!("HARNESS-ERROR property={} determinism sample failed: {e}", check.id());
+                exit = 2;
+                json!({ "error": e })
+            }
+        }
+    } else { json!(null) };
+
     let wall = t0.elapsed().as_secs_f64();
     if exit == 0 {
         for p in check.required_probes() {
@@ -765,6 +831,7 @@ fn finish_batch(check: &dyn Check, o: &BatchOpts, runs: Vec<OneRun>, t0: Instant
                     "stub": "rayon (executor re-implemented on simulated workers), thread_local (slot storage), the RwLock/Mutex objects at the three racing sites (shuttle's), hash *seeds* of std/ahash (hashers are real), file reads (C20)"
                 },
                 "known_findings_matched": known_printed.iter().collect::<Vec<_>>(),
+                "determinism_sample": det,
             },
             "assumptions": check.assumptions(),
             "wall_s": wall,
@@ -801,13 +868,7 @@ pub fn digests(check: &dyn Check, seed: u64, tier: &str, from: u64, to: u64, thr
                 }
                 let (case, cfg) = plan_run(check, seed, idx, tier);
                 let r = do_run(check, idx, case, cfg, None);
-                let mut d = r.digest;
-                for t in &r.traces {
-                    for &x in t {
-                        d = rt::mix(d, x as u64);
-                    }
-                }
-                out.lock().unwrap().push((idx, d));
+                out.lock().unwrap().push((idx, r.full_digest()));
             });
         }
     });
